@@ -28,6 +28,15 @@ ASSUME_LP = [
     'definitions correctly; it shares no code with the repository']
 
 
+def backend_fault(tr):
+    """The real back end broke its own contract in this run (reported
+    Optimal with a point that violates the program)."""
+    for r in tr.rounds:
+        if r.get('backend_fault'):
+            return r['backend_fault']
+    return None
+
+
 class LPSpec(object):
     level = 'exploration'
     min_budget = {'quick': 250, 'thorough': 400}
@@ -102,8 +111,13 @@ class LPSpec(object):
                 sub['opts']['criteria'] = crit[:j]
                 trp = execute.run_lp(sub, keep_sets=False)
                 kind, r = oracles.outcome(trp)
-                prefix.append(r['matching'] if kind == 'optimal' else None)
+                prefix.append(r['matching'] if kind == 'optimal' and
+                              not backend_fault(trp) else None)
         tr = execute.run_lp(sc, keep_sets=False)
+        if backend_fault(tr):
+            return tr, {'violations': [], 'probes': {'big-lane': 1},
+                        'nontrivial': False,
+                        'skipped': 'real-backend-fault:' + backend_fault(tr)}
         return tr, oracles.big_oracle(self.prop, ctx, tr, prefix)
 
     def evaluate(self, sc, xstats=None, xrng=None):
@@ -117,6 +131,9 @@ class LPSpec(object):
                                                              0) ^ 0x5bd1e995),
                       'stats': xstats}
         tr = execute.run_lp(sc, prefer=ctx.prefer, xcheck=xcheck)
+        if backend_fault(tr):
+            return tr, {'violations': [], 'probes': {}, 'nontrivial': False,
+                        'skipped': 'real-backend-fault:' + backend_fault(tr)}
         v = self.oracle(ctx, tr)
         return tr, v
 
@@ -354,6 +371,9 @@ class C16Spec(LPSpec):
             return tr, oracles.c16_refuse(sc, tr)
         ctx = oracles.LPContext(sc)
         tr = execute.run_lp(sc, prefer=ctx.prefer)
+        if backend_fault(tr):
+            return tr, {'violations': [], 'probes': {}, 'nontrivial': False,
+                        'skipped': 'real-backend-fault'}
         return tr, oracles.c16_order(ctx, tr)
 
     def shrink(self, sc):
